@@ -116,13 +116,17 @@ def deferFollowsRLock : List Sync → Bool
 
 /-! ### the renewal automaton's fetch, as a probe -/
 
-/-- One successful fetch with a write directory publishes exactly one set `{key k, chain k, current
-anchors}`; a failed one publishes nothing; and each role of the source's file map is present once. -/
+/-- Each request draws the next key; one successful fetch with a write directory publishes exactly
+one set `{key k, chain k, current anchors}`; a failed one publishes nothing; and each role of the
+source's file map is present once. -/
 def fetchProbe : Bool :=
-  let s : RN := { now := 5, script := [.ok 0 10, .fail], dirOn := true, anchors := 3, nextTok := 4 }
-  let s1 := (fetch s).1
-  let s2 := (fetch s1).1
-  s1.pub == [⟨4, 4, 3⟩] && s2.pub == [⟨4, 4, 3⟩] && s2.nextTok == 6 &&
+  let s : RN := { now := 5, mode := .waiting, script := [.ok 0 10, .fail], dirOn := true, anchors := 3, nextTok := 4 }
+  let a := issue s false
+  let s1 := (complete a).1
+  let b := issue { s1 with mode := .waiting } false
+  let s2 := (complete b).1
+  a.reqTok == 4 && b.reqTok == 5 && s2.nextTok == 6 &&
+  s1.pub == [⟨4, 4, 3⟩] && s2.pub == [⟨4, 4, 3⟩] && (s2.log.map (·.tok)) == [5, 4] &&
   (fileSet.map (·.2)) == [.key, .chain, .anchors] &&
   (fetchDir.filter (· == .dirWriteOnErrRet)).length == 1
 
